@@ -23,7 +23,7 @@ def gen_session_cfg(rng, idx):
         frag = rng.choice(FRAGS if big else [2, 3, 7, 50, 100, 120]) if rng.random() < 0.8 else rng.randint(2, 2000 if big else 130)
         clients.append({"qtype": qt, "down": down, "up": rng.choice(["Base32", "Base64", "Base64u", "Base128"]),
                         "lazy": rng.random() < 0.6, "frag": frag, "edns0": rng.random() < 0.5,
-                        "raw": rng.random() < 0.12})
+                        "raw": rng.random() < 0.12, "v6": rng.random() < 0.2, "nofrag": rng.random() < 0.12})
     return {"clients": clients, "nops": rng.randint(60, 160), "check_ip_off": rng.random() < 0.3,
             "ns_ip": rng.choice([None, None, "192.0.2.77"]), "wild": rng.random() < 0.25,
             "rseed": rng.getrandbits(32)}
@@ -69,7 +69,8 @@ def run_session(tag, cfg, seed, ops_filter=None, redeliver=True, setup_only=Fals
         return s
     s.mcs = []
     for i, cc in enumerate(cfg["clients"]):
-        mc = mclient.ModelClient("10.53.2.%d" % (i + 1), (scen.SERVER_IP, 53), dom, sim.password,
+        v6 = bool(cc.get("v6"))
+        mc = mclient.ModelClient(("fd53::2:%x" % (i + 1)) if v6 else "10.53.2.%d" % (i + 1), (scen.SERVER_IP6 if v6 else scen.SERVER_IP, 53), dom, sim.password,
                                  random.Random(rng.getrandbits(32)), qtype=cc["qtype"])
         mc.edns0 = cc["edns0"]
         k.add_actor(mc.ip, mc)
@@ -81,7 +82,8 @@ def run_session(tag, cfg, seed, ops_filter=None, redeliver=True, setup_only=Fals
             mc.option(cc["down"].encode() if isinstance(cc["down"], str) else cc["down"])     # str after a JSON round trip (replay)
         if cc["lazy"]:
             mc.option(b"l")
-        mc.set_frag(cc["frag"])
+        if not cc.get("nofrag"):
+            mc.set_frag(cc["frag"])          # (a session that never sets a size stays on the conservative default)
         if cc.get("raw"):
             # a session that switched to raw UDP mode but keeps talking DNS as well (a hostile or odd client may)
             mc.raw_login()
@@ -96,7 +98,7 @@ def run_session(tag, cfg, seed, ops_filter=None, redeliver=True, setup_only=Fals
     if setup_only:
         s.ok = True
         return s
-    ops = ["ping"] * 6 + ["up"] * 3 + ["down"] * 5 + ["burst", "idle", "id0", "aux", "hs", "badip", "downsoon", "upsmall", "rawop", "refrag", "refrag"]
+    ops = ["ping"] * 6 + ["up"] * 3 + ["down"] * 5 + ["burst", "idle", "id0", "aux", "hs", "badip", "downsoon", "upsmall", "rawop", "refrag", "refrag", "dupsoon", "dupsoon"]
     if redeliver:
         ops += ["dup"] * 3
     if ops_filter:
@@ -159,7 +161,7 @@ def do_op(s, mc, op, rng):
     elif op == "dup":
         alt = None
         if s.cfg.get("check_ip_off") and rng.random() < 0.5:
-            alt = "10.53.3.%d" % rng.randint(1, 3)
+            alt = ("fd53::3:%x" if ":" in mc.ip else "10.53.3.%d") % rng.randint(1, 3)     # same address family as the session
         for _ in range(rng.randint(1, 4)):
             mc.redeliver(back=rng.randint(1, min(6, max(1, len(mc.dgrams)))), new_id=rng.random() < 0.5,
                          src_ip=alt, swapcase=rng.random() < 0.3)
@@ -198,6 +200,25 @@ def do_op(s, mc, op, rng):
             mc.ask(proto.msg_version(mc.domain, mc.new_cmc(), rng.choice([0x00000501, 0x00000502 ^ 0x100])), timeout_us=300000)
         else:
             mc.ask(proto.msg_setfrag(mc.domain, mc.userid, rng.choice([0, 1]), mc.new_cmc()), timeout_us=300000)
+    elif op == "dupsoon":
+        # an impatient relay repeats the held ping while it sits in the server's 20 ms send-real-soon slot:
+        # ping (held), then the last fragment of an upstream packet with nothing to send downstream, then the ping
+        # again with a new id a few ms later, then an ordinary ping
+        mc.drain()
+        mc.query(mc.ping_labels())
+        k.run(k.now + rng.choice([3000, 8000]))
+        f = mk_frame(s, mc, "up", rng, size=rng.choice([32, 40]))
+        s.sent_up.append(f)
+        mc.up_seq = (mc.up_seq + 1) & 7
+        mc.query(mc.data_labels(mc.up_seq, 0, 1, proto.deflate(f)))
+        k.run(k.now + rng.choice([2000, 5000, 12000]))
+        for _ in range(rng.randint(1, 2)):
+            mc.redeliver(back=2, new_id=True, sport=rng.choice([None, None, 40001]))
+            k.run(k.now + rng.choice([500, 3000]))
+        k.run(k.now + 40000)
+        mc.drain()
+        mc.ping(wait_us=30000)
+        mc.ping(wait_us=30000)
     elif op == "refrag":
         # the fragment size is changed while a multi-fragment packet is in flight and its current fragment is
         # still unacknowledged; the server then has to re-send under the *new* limit
